@@ -100,6 +100,82 @@ def check_authority_predicate(ctx, chk, f, suf):
         raise AnalysisBroken('%s has only %d paths returning "equal"' % (f.name, nt))
 
 
+def rule_prefix_walk(ctx, chk, f, S, B):
+    """The last segment of a path is not a directory.  The loop that walks the common prefix advances both walkers over a pair
+    of equal segments only if the two segments are the last of both paths or of neither: every path from the loop head into the
+    block that advances both walkers passes a comparison of `s->next == NULL` with `b->next == NULL` on the agreeing side."""
+    from ..ir import strip_casts
+    from ..cfgutil import expr_key
+    import re
+    # walkers: PathSegment locals initialised from the two path heads
+    walkers = {}
+    for b in f.blocks:
+        for i in b.ins:
+            if i.op == 'assign' and i.dst is not None and i.dst.k == 'ref' and 'PathSegment' in (i.dst.ty or ''):
+                k = expr_key(i.src)
+                if k == '%s->pathHead' % S:
+                    walkers['s'] = i.dst.v
+                elif k == '%s->pathHead' % B:
+                    walkers['b'] = i.dst.v
+    if len(walkers) != 2:
+        raise AnalysisBroken('%s: the two path walkers were not recognised' % f.name)
+    sw, bw = walkers['s'], walkers['b']
+    body = None
+    for b in f.blocks:
+        adv = set()
+        for i in b.ins:
+            if i.op == 'assign' and i.dst is not None and i.dst.k == 'ref' and expr_key(i.src) == '%s->next' % i.dst.v:
+                adv.add(i.dst.v)
+        if {sw, bw} <= adv:
+            body = b
+    if body is None:
+        raise AnalysisBroken('%s: no block advances both path walkers' % f.name)
+    # loop head: the block reached from the body's back edge; walk back from the body over condition blocks (no instructions
+    # other than calls of the comparison) collecting the edge conditions of every path
+    byid = dict((b.id, b) for b in f.blocks)
+    head = body.succs()[0] if len(body.succs()) == 1 else None
+    while head is not None and not head.ins and head.term[0] == 'jmp':
+        head = head.term[1]
+    if head is None:
+        raise AnalysisBroken('%s: loop head of the prefix walk not found' % f.name)
+    paths = []
+
+    def walk(blk, conds, seen):
+        if blk.id == body.id:
+            paths.append(list(conds))
+            return
+        if blk.id in seen or len(paths) > 200:
+            return
+        t = blk.term
+        if t[0] == 'jmp':
+            walk(t[1], conds, seen | {blk.id})
+        elif t[0] == 'br':
+            walk(t[2], conds + [(expr_key(t[1]), True, t[4] if len(t) > 4 else blk.loc)], seen | {blk.id})
+            walk(t[3], conds + [(expr_key(t[1]), False, t[4] if len(t) > 4 else blk.loc)], seen | {blk.id})
+    walk(head, [], set())
+    if not paths:
+        raise AnalysisBroken('%s: no path from the loop head into the advancing block' % f.name)
+    NUL = r'(?:0|\(void \*\)0|NULL)'
+    pat = re.compile(r'^\(\(?(%s|%s)->next == %s\)? (==|!=) \(?(%s|%s)->next == %s\)?\)$'
+                     % (re.escape(sw), re.escape(bw), NUL, re.escape(sw), re.escape(bw), NUL))
+    bad = None
+    for conds in paths:
+        ok = False
+        for k, truth, loc in conds:
+            m = pat.match(k)
+            if m and m.group(1) != m.group(3) and ((m.group(2) == '==') == truth):
+                ok = True
+        if not ok and bad is None:
+            bad = conds
+    key = 'prefix-walk:%s' % (f.name if bad is None else base_name(f.name))
+    chk.add('prefix-walk', key, bad is None, body.loc or f.loc,
+            '%s: %d paths lead into the block that steps over a common segment; %s' % (
+                f.name, len(paths), 'each has established that the segment is the last of both paths or of neither' if bad is None else
+                'one of them (conditions %s) steps over a segment that is the last one of only one path: the last segment of the base is '
+                'a file name, not a directory, and the last segment of the source has to be emitted (e.g. source /a/b against base /a/b/c '
+                'yields the empty reference, which resolves to the base itself)' % [(k, t) for k, t, _l in bad][-3:]), func=f.name)
+
+
 def run(ctx, chk):
     prog = ctx.prog
     codes = dict((k, prog.macros.get(k)) for k in ('URI_ERROR_REMOVEBASE_REL_BASE', 'URI_ERROR_REMOVEBASE_REL_SOURCE', 'URI_SUCCESS',
@@ -113,8 +189,9 @@ def run(ctx, chk):
                        'path from the source; equal authority and domain-root mode => authority omitted, source path made absolute and '
                        'passed through the ambiguity guard; otherwise a relative path is built only from "..", "." and the source '
                        'segments, with the "./" guard in front of a first segment that is empty or contains ":"; query and fragment '
-                       'always from the source; (c) relative base / source return their codes before anything is allocated. NOT '
-                       'decided: that the prefix walk and ".." emission yield a reference that resolves back to the source.')
+                       'always from the source; (c) relative base / source return their codes before anything is allocated. (d) the '
+                       'common-prefix walk never treats the last segment of exactly one of the two paths as common. NOT decided: that '
+                       'the prefix walk and ".." emission yield a reference that resolves back to the source in general.')
     chk.rule('authority-coverage', 'every path of the authority predicate that returns "equal" has compared user info, host by kind '
              'and port', floor=8)
     chk.rule('removal-table', 'provenance of scheme / authority / path / query / fragment of the produced reference per branch',
@@ -122,6 +199,8 @@ def run(ctx, chk):
     chk.rule('relative-operands', 'a base or source without scheme returns the dedicated code before any allocation', floor=4)
     chk.rule('naked-guard', 'while the produced relative path is still empty, a first segment that is empty or contains ":" is '
              'preceded by a "." segment; domain-root mode passes through the ambiguity guard', floor=4)
+    chk.rule('prefix-walk', 'the common-prefix walk steps over a pair of equal segments only if it is the last segment of both paths '
+             'or of neither (the last segment of a path is not a directory)', floor=2)
     from .c11 import _compare_range
     chk.rule('compare-range', 'uriCompareRange (which decides "same scheme", user info, port and host text here): NULL equals only NULL, '
              'lengths compared, texts compared over the full length in characters', floor=8)
@@ -129,6 +208,7 @@ def run(ctx, chk):
         _compare_range(ctx, chk, ctx.prog, ctx.irp, suf)
         f = find_impl(ctx, suf)
         dest, S, B, mode = f.params[0], f.params[1], f.params[2], f.params[3]
+        rule_prefix_walk(ctx, chk, f, S, B)
         pred = find_authority_predicate(ctx, f)
         check_authority_predicate(ctx, chk, pred, suf)
         paths = enumerate_paths(prog, f, unroll=1)
